@@ -218,6 +218,8 @@ func (st Style) From(f Node) string {
 	switch f["k"] {
 	case "table":
 		return st.path(strs(f["p"])) + as
+	case "sel":
+		return st.quote(SelectorText(seq(f["sel"]))) + as
 	case "derived":
 		return "(" + st.Query(f["q"].(Node)) + ")" + as
 	case "join":
